@@ -8,10 +8,10 @@ pub fn hoeffding_eps(n: u64, delta: f64) -> f64 {
     ((2.0 / delta).ln() / (2.0 * n as f64)).sqrt()
 }
 
-/// per-interval delta: every statistical comparison of one invocation uses 1e-16, and an invocation
-/// makes fewer than 10000 comparisons, so a correct implementation is flagged with
+/// per-interval delta: every statistical comparison of one invocation uses 1e-18, and an invocation
+/// makes fewer than 10^6 comparisons (C18 thorough: 320 scenarios x up to 100 loops x ~10 rungs x 3), so a correct implementation is flagged with
 /// probability < 1e-12 per invocation for any seed.
-pub const DELTA: f64 = 1e-16;
+pub const DELTA: f64 = 1e-18;
 
 #[derive(Clone, Copy, Debug)]
 pub struct Interval {
